@@ -43,6 +43,8 @@ func (eval Evaluator) ApplyEvaluationKey(ctIn *Ciphertext, evk *EvaluationKey, o
 	level := utils.Min(ctIn.Level(), opOut.Level())
 	ringQ := eval.params.RingQ().AtLevel(level)
 
+	opOut.Resize(opOut.Degree(), level)
+
 	NIn := ctIn.Value[0].N()
 	NOut := opOut.Value[0].N()
 
@@ -69,8 +71,6 @@ func (eval Evaluator) ApplyEvaluationKey(ctIn *Ciphertext, evk *EvaluationKey, o
 		if NIn != ringQ.N() {
 			return fmt.Errorf("cannot ApplyEvaluationKey: ctIn ring degree does not match evaluator params ring degree")
 		}
-
-		level := utils.Min(ctIn.Level(), opOut.Level())
 
 		ctTmp, err := NewCiphertextAtLevelFromPoly(level, eval.BuffCt.Value)
 
